@@ -102,6 +102,10 @@ pub fn install_panic_hook() {
             eprintln!("HARNESS PANIC (outside a simulated parse): {} @ {}", msg, loc);
         }
         LAST_PANIC.with(|p| *p.borrow_mut() = Some(format!("{} @ {}", msg, loc)));
+        // the instant a panic starts is a scheduler point for simulated caller threads
+        if IN_PARSE.with(|f| f.get()) {
+            world::seam_yield();
+        }
     }));
 }
 
